@@ -1,6 +1,7 @@
 import ast
 import keyword
 import re
+import unicodedata
 from collections.abc import MutableMapping
 from typing import Union
 
@@ -91,11 +92,20 @@ def sanitize_variable_name(
         template: A template to use for sanitized names, which is mainly useful
             if you need to undo the sanitization by string replacement.
     """
-    if name.isidentifier() and not keyword.iskeyword(name):
+    # (Python normalises identifiers to NFKC when compiling, so a name that is
+    # not in that form already needs an alias that is.)
+    normalized_name = unicodedata.normalize("NFKC", name)
+    if (
+        name.isidentifier()
+        and not keyword.iskeyword(name)
+        and normalized_name == name
+    ):
         return name
 
     # Compute recognisable basename
-    base_name = "".join([char if re.match(r"\w", char) else "_" for char in name])
+    base_name = "".join(
+        [char if re.match(r"\w", char) else "_" for char in normalized_name]
+    )
     if not base_name or base_name[0].isdigit() or keyword.iskeyword(base_name):
         base_name = "_" + base_name
 
